@@ -143,7 +143,19 @@ impl Scenario for Full {
                         3 => fault = WFault::DropEdge(rng.below(11) as u8),
                         4 => fault = WFault::ExtraEdge(rng.below(12) as u8, rng.bool()),
                         5 => fault = WFault::Trunc(rng.below(11) as u8),
-                        6 => extra_after.push(Op::Noise { word: rng.below(2048) as u16, via: if rng.bool() { Via::Bit } else { Via::Word } }),
+                        6 => {
+                            // line noise; a jammed line repeats the same word; a line stuck high or
+                            // low (unplugged, shorted) reads all ones or all zeros for a while
+                            let w = match rng.below(4) {
+                                0 => 0x7FF,
+                                1 => 0x000,
+                                _ => rng.below(2048) as u16,
+                            };
+                            let via = if rng.bool() { Via::Bit } else { Via::Word };
+                            for _ in 0..(if rng.chance(1, 2) { rng.range(2, 6) } else { 1 }) {
+                                extra_after.push(Op::Noise { word: w, via });
+                            }
+                        }
                         7 => extra_after.push(Op::Edge { bit: rng.bool() }),
                         8 => extra_after.push(match rng.below(4) {
                             // keyboard power-cycles (BAT AA) or overruns (00): as a byte, or as a frame
@@ -170,6 +182,20 @@ impl Scenario for Full {
                     };
                     ops.push(TOp { t, op });
                     t += 11 * period;
+                    if matches!(fault, WFault::Flip(_)) && rng.chance(1, 3) {
+                        // the resend meets the same bad line: the identical damaged frame again
+                        ops.push(TOp { t, op });
+                        t += 11 * period;
+                    }
+                    if matches!(fault, WFault::Flip(_)) && rng.chance(1, 3) {
+                        // protocol traffic after a damaged frame: the device answers the host's
+                        // resend request (FA ack, FE resend, FC/EE/00/AA), then sends the byte again
+                        let pb = *rng.pick(&[0xFAu8, 0xFE, 0xFA, 0xFE, 0xFC, 0xEE, 0x00, 0xAA]);
+                        ops.push(TOp { t, op: Op::Frame { sent: pb, fault: WFault::None, via: if path == 1 { Via::Word } else { Via::Bit } } });
+                        t += 11 * period;
+                        ops.push(TOp { t, op: Op::Frame { sent: b, fault: WFault::None, via: if path == 1 { Via::Word } else { Via::Bit } } });
+                        t += 11 * period;
+                    }
                 }
                 for e in extra_after {
                     ops.push(TOp { t, op: e });
@@ -697,8 +723,9 @@ impl Scenario for Chaos {
     }
     fn generate(&self, rng: &mut Rng, run: u64, tier: Tier) -> Trace {
         let mut cfg = Cfg::default();
-        cfg.layout = (run % NLAYOUT_OBJS as u64) as u8;
+        cfg.layout = if (run / 30) % 8 == 7 { 255 } else { (run % NLAYOUT_OBJS as u64) as u8 };
         cfg.map = rng.bool();
+        cfg.obj = ((run / 4) % 2) as u8;
         let n = marathon(run, rng.range(20, if tier == Tier::Quick { 200 } else { 400 }) as usize);
         let mut ops: Vec<TOp> = Vec::new();
         let mut t = 0u64;
@@ -723,6 +750,35 @@ impl Scenario for Chaos {
                 _ => Op::Map { layout: rng.below(NLAYOUT_OBJS as u64) as u8, key: rng.below(NKEYS as u64) as u8, mods: rng.below(512) as u16, map: rng.bool() },
             };
             ops.push(TOp { t, op });
+            // a stuck line / a flood of identical replies: the same byte, bit or event hundreds
+            // of times in a row (counters must not run away)
+            if rng.chance(1, 400) {
+                let reps = if rng.bool() { rng.range(250, 262) } else { rng.range(258, 600) };
+                let flood = match op {
+                    Op::Byte { .. } => Op::Byte { b: *rng.pick(&[0xFFu8, 0xFE, 0xFA, 0xEE, 0x00, 0xAA, 0x1C, 0xF0, 0xE0]) },
+                    Op::Ev { key, .. } => Op::Ev { key, st: 1 },
+                    other => other,
+                };
+                for _ in 0..reps {
+                    ops.push(TOp { t, op: flood });
+                }
+            }
+            // a typist's idiom: some modifiers go down, a key is typed, one modifier changes,
+            // the same key is typed again
+            if let Op::Ev { key, .. } = op {
+                if rng.chance(1, 4) {
+                    const MODS: [usize; 9] = [76, 87, 93, 100, 95, 97, 122, 60, 34]; // LShift RShift LControl RControl LAlt RAltGr RControl2 CapsLock NumpadLock
+                    for _ in 0..rng.below(4) {
+                        ops.push(TOp { t, op: Op::Ev { key: *rng.pick(&MODS) as u8, st: rng.below(2) as u8 } });
+                    }
+                    ops.push(TOp { t, op: Op::Ev { key, st: 1 } });
+                    if rng.bool() {
+                        ops.push(TOp { t, op: Op::Ev { key, st: 0 } });
+                    }
+                    ops.push(TOp { t, op: Op::Ev { key: *rng.pick(&MODS) as u8, st: rng.below(2) as u8 } });
+                    ops.push(TOp { t, op: Op::Ev { key, st: 1 } });
+                }
+            }
             // runs of bits: the counter must never run away
             if let Op::Edge { .. } = op {
                 if rng.chance(1, 6) {
@@ -770,12 +826,23 @@ impl Scenario for Chaos {
         let cfg = &trace.cfg;
         let lay = cfg.layout as usize % NLAYOUT_OBJS;
         let mut h = LogHash::new();
-        let mut ps2 = Ps2Decoder::new();
-        let mut s1 = DynSet::new(1);
-        let mut s2 = DynSet::new(2);
-        let mut ed = EventDecoder::new(DynLayout::object(lay), hc(cfg.map));
-        let mut kb1 = KbAny::new(1, DynLayout::object(lay), hc(cfg.map));
-        let mut kb2 = KbAny::new(2, DynLayout::object(lay), hc(cfg.map));
+        // obj bit 0: bare decoders built through their Default impls; layout 255: a recording
+        // layout (every answer unique) instead of a real one
+        let via_default = cfg.obj & 1 == 1;
+        let rec_log: AskLog = std::rc::Rc::new(std::cell::RefCell::new(RecLog::default()));
+        let mk_layout = |id: u8| -> DynLayout {
+            if cfg.layout == 255 {
+                DynLayout::Recorder { id, log: rec_log.clone() }
+            } else {
+                DynLayout::object(lay)
+            }
+        };
+        let mut ps2 = if via_default { Ps2Decoder::default() } else { Ps2Decoder::new() };
+        let mut s1 = if via_default { DynSet::via_default(1) } else { DynSet::new(1) };
+        let mut s2 = if via_default { DynSet::via_default(2) } else { DynSet::new(2) };
+        let mut ed = EventDecoder::new(mk_layout(0), hc(cfg.map));
+        let mut kb1 = KbAny::new(1, mk_layout(1), hc(cfg.map));
+        let mut kb2 = KbAny::new(2, mk_layout(2), hc(cfg.map));
         let mut m1 = RefSet1::new();
         let mut m2 = RefSet2::new();
         let mut obj = 0usize;
@@ -854,7 +921,12 @@ impl Scenario for Chaos {
                     _ => ed.set_ctrl_handling(hc(map)),
                 },
                 Op::Layout { id } => {
-                    ed.change_layout(DynLayout::object(id as usize % NLAYOUT_OBJS));
+                    if cfg.layout == 255 {
+                        ed.change_layout(DynLayout::Recorder { id, log: rec_log.clone() });
+                        rec_log.borrow_mut().asked.clear();
+                    } else {
+                        ed.change_layout(DynLayout::object(id as usize % NLAYOUT_OBJS));
+                    }
                     env.cov.probe("layout_changed_on_event_decoder");
                 }
                 Op::Map { layout, key, mods, map } => {
